@@ -318,10 +318,16 @@ func (bridge *ExprBridge) isStringConcatenationExpression(expression string, dat
 
 // fallbackToCustomExpr 回退到自定义表达式系统
 func (bridge *ExprBridge) fallbackToCustomExpr(expression string, data map[string]any) (any, error) {
-	// 尝试处理字符串拼接表达式
-	result, err := bridge.evaluateStringConcatenation(expression, data)
-	if err == nil {
-		return result, nil
+	// 尝试处理字符串拼接表达式 — only when an operand is a text (a literal or a string
+	// value): "n + x" over numbers and NULL is arithmetic, and its fallback must not
+	// glue the operands' texts together (1 + NULL used to come out as the text "1").
+	var err error
+	if bridge.isStringConcatenationExpression(expression, data) {
+		var result any
+		result, err = bridge.evaluateStringConcatenation(expression, data)
+		if err == nil {
+			return result, nil
+		}
 	}
 
 	// 如果不是字符串拼接，尝试简单的数值表达式
